@@ -6,8 +6,22 @@ package composite
 // paths take effect for all children at once.
 
 import (
+	k8sjson "k8s.io/apimachinery/pkg/util/json"
+
 	rt "metacontroller/pkg/zzverif/rt"
 )
+
+// verifPatchHas: the revision's parent patch sets spec.template.v to v.
+func verifPatchHas(raw []byte, v string) bool {
+	m := map[string]interface{}{}
+	if err := k8sjson.Unmarshal(raw, &m); err != nil {
+		return false
+	}
+	sp, _ := m["spec"].(map[string]interface{})
+	t, _ := sp["template"].(map[string]interface{})
+	s, _ := t["v"].(string)
+	return s == v
+}
 
 func (r *verifRollWorld) childField(name, field string) (string, bool) {
 	o := r.w.Srv.Peek(r.childRes.Name, r.ns, name)
@@ -30,6 +44,10 @@ func VerifC07_OldRevisionChildren() {
 		r.method = "RollingInPlace"
 	}
 	r.global = g1
+	if rt.Bool("an-unset-field-path-is-listed-before-the-revisioned-one") {
+		rt.Cover("unset-field-path-first")
+		r.extraPath = true
+	}
 	// children never report Ready, so the rollout stays paused after the first
 	// move and b stays assigned to the old revision for the rest of the scenario
 	r.requireReady = true
@@ -44,6 +62,18 @@ func VerifC07_OldRevisionChildren() {
 	// b is still assigned to the old revision
 	vb, ok := r.childField("b", "k")
 	rt.Assert(ok && vb == oldV, "setup/b-not-on-old-revision")
+	// C09: nothing carries the new template without being on record for it
+	for _, n := range []string{"a", "b"} {
+		if v, ok := r.childField(n, "k"); ok && v == newV {
+			found := false
+			for _, rev := range r.w.Srv.Revs() {
+				if string(rev.ParentPatch.Raw) != "" && verifRevLists(rev, n) && verifPatchHas(rev.ParentPatch.Raw, newV) {
+					found = true
+				}
+			}
+			rt.Assert(found, "rollout/child-ahead-of-its-recorded-revision")
+		}
+	}
 
 	switch rt.Choice("event", 2) {
 	case 0:
